@@ -49,6 +49,7 @@ ProvsSmall == ValidProvs \cup InvalidProvs
 ProvsIw == {p \in ValidProvs : p.pid \in {1, 2}} \cup InvalidProvs
 ProvsMeth == {p \in ValidProvs : p.pid \in {3, 4}}
              \cup {p \in InvalidProvs : p.pid \in {6, 17}}
+ProvsCross == {p \in ValidProvs : p.pid \in {1, 2, 3}} \cup InvalidProvs
 ProvsMix == {p \in ValidProvs : p.pid \in {1, 3}}
 ProvsBig == ValidProvs \cup MoreValidProvs \cup InvalidProvs
 ProvsBigIw == {p \in ValidProvs \cup MoreValidProvs : p.pid \in {1, 2, 3, 13, 14}}
